@@ -67,7 +67,7 @@ func GenWorld(r *Rng, s WorldSpec) World {
 				break
 			}
 		}
-		if s.AllNamed || cr.Bool(0.9) {
+		if s.AllNamed || cr.Bool(0.75) {
 			for tries := 0; tries < 50; tries++ {
 				nm := Pick(cr, nameVocab)
 				if tries > 20 {
@@ -97,7 +97,7 @@ func GenWorld(r *Rng, s WorldSpec) World {
 			}
 		case "prefix":
 			c.Labels = map[string]string{}
-			sets := [][2]string{{"a", "bc"}, {"ab", "c"}, {"x", "1"}, {"y", "2"}, {"x", "12"}, {"a", "b"}, {"b", "a"}, {"tier", "a"}, {"a", "tier"}, {"abc", ""}, {"weight", "3"}, {"weight", "7"}, {"a", "1"}, {"b", "2"}, {"a", "1,b=2"}, {"a", "1\",b=\"2"}}
+			sets := [][2]string{{"a", "bc"}, {"ab", "c"}, {"x", "1"}, {"y", "2"}, {"x", "12"}, {"a", "b"}, {"b", "a"}, {"tier", "a"}, {"a", "tier"}, {"tier", ""}, {"abc", ""}, {"weight", "3"}, {"weight", "7"}, {"a", "1"}, {"b", "2"}, {"a", "1,b=2"}, {"a", "1\",b=\"2"}}
 			for k := cr.Intn(4); k > 0; k-- {
 				kv := Pick(cr, sets)
 				c.Labels[kv[0]] = kv[1]
@@ -226,6 +226,9 @@ func genMsg(r *Rng, s WorldSpec, ci, j int) []byte {
 			return hugeMsg(r)
 		case x < 50:
 			return thresholdMsg(r)
+		case x < 54:
+			// text that looks like the tail of a timestamp at every offset
+			return []byte([]string{"Z Z Z Z Z Z Z Z Z Z Z Z Z Z", " Z Z Z Z Z Z Z Z Z Z Z Z Z", "5Z 5Z 5Z 5Z 5Z 5Z 5Z", "+02:00 +02:00 Z +02:00"}[r.Intn(4)])
 		}
 		fallthrough
 	default: // rich
